@@ -60,7 +60,7 @@ Definition split (sep : str) (s : str) : list str := split_go sep 0 [] s.
 Inductive parsed :=
   | PBlank                                   (* empty after removing the comment and stripping: skipped silently *)
   | PReject                                  (* more than one "==", or one of , > < : logged and skipped *)
-  | PReq (name : str) (ver : option str).    (* [None] = UNPINNED_VERSION *)
+  | PReq (name : str) (ver : option str).    (* [None] = no "==": unpinned; [Some v] = the text after "==" *)
 
 Definition parse_line (strip_parts : bool) (line : str) : parsed :=
   let s := strip (cut_at req_comment_char line) in
@@ -75,7 +75,7 @@ Definition parse_line (strip_parts : bool) (line : str) : parsed :=
          | n :: v :: _ =>
              let n' := if strip_parts then strip n else n in
              let v' := if strip_parts then strip v else v in
-             PReq n' (if str_eqb v' unpinned_version then None else Some v')
+             PReq n' (Some v')
          end
   end.
 
@@ -134,27 +134,38 @@ Section Merge.
   Definition add_src (e : entry) (file : N) : entry :=
     {| e_ver := e_ver e; e_src := e_src e ++ [file]; e_inst := e_inst e |}.
 
-  (* l.104-182 for one parsed requirement *)
+  (* new_version as the code compares it: the text after "==" is UNPINNED_VERSION when it is spelt like that marker *)
+  Definition norm_ver (nv : option str) : option str :=
+    match nv with
+    | Some v => if str_eqb v unpinned_version then None else Some v
+    | None => None
+    end.
+
+  (* l.104-182 for one requirement; [nv = None] means unpinned *)
+  Definition merge_core (t : table) (file : N) (name : str) (nv : option str) : table :=
+    let fresh := {| e_ver := nv; e_src := [file]; e_inst := installed name |} in
+    match tlookup name t with
+    | None => tset name fresh t
+    | Some e =>
+      if ver_falsy (e_ver e) then tset name fresh t
+      else
+        match nv, e_ver e with
+        | None, Some _ => t                                  (* unpinned ignored in favour of the pin *)
+        | Some _, None => tset name fresh t                  (* pin replaces unpinned *)
+        | None, None => tset name (add_src e file) t
+        | Some v, Some c =>
+          if negb (vvalid c) || negb (vvalid v) then t       (* Version() raises ValueError: line skipped *)
+          else if veq c v then tset name (add_src e file) t
+          else if vlt c v then tset name {| e_ver := Some v; e_src := [file]; e_inst := e_inst e |} t
+          else t                                             (* recorded version is higher *)
+        end
+    end.
+
+  (* one parsed line.  Conformant (D24 off): the text after "==" must be a version, otherwise the line is skipped
+     before anything else happens.  As is (D24 on): no such check. *)
   Definition merge_req (d24 : bool) (t : table) (file : N) (name : str) (nv : option str) : table :=
-    if negb d24 && match nv with Some v => negb (vvalid v) | None => false end then t   (* conformant: validate first *)
-    else
-      let fresh := {| e_ver := nv; e_src := [file]; e_inst := installed name |} in
-      match tlookup name t with
-      | None => tset name fresh t
-      | Some e =>
-        if ver_falsy (e_ver e) then tset name fresh t
-        else
-          match nv, e_ver e with
-          | None, Some _ => t                                  (* unpinned ignored in favour of the pin *)
-          | Some _, None => tset name fresh t                  (* pin replaces unpinned *)
-          | None, None => tset name (add_src e file) t
-          | Some v, Some c =>
-            if negb (vvalid c) || negb (vvalid v) then t       (* Version() raises ValueError: line skipped *)
-            else if veq c v then tset name (add_src e file) t
-            else if vlt c v then tset name {| e_ver := Some v; e_src := [file]; e_inst := e_inst e |} t
-            else t                                             (* recorded version is higher *)
-          end
-      end.
+    if negb d24 && match nv with Some v => negb (vvalid v) | None => false end then t
+    else merge_core t file name (norm_ver nv).
 
   Definition merge_line (cfg : deviations) (t : table) (fl : N * str) : table :=
     match parse_line (negb (d25_no_strip cfg)) (snd fl) with
